@@ -1,5 +1,6 @@
 """C02 - acknowledgement happens exactly once and never before the configured point."""
 import json
+import os
 import random
 import zlib
 
@@ -49,9 +50,9 @@ META = dict(
                   "recorders and shims of harness/drivers/pipeline_driver.py (time() marks, base-class hook loggers)",
                   "asyncio.wait_for / thread-pool behaviour as modelled by body_run (exercised, not verified)"],
     assumptions=["an ack callback that itself raises is outside the property",
-                 "run_receiver_task cancelled by its application: a sync-function message whose callback is still suspended before "
-                 "it hands the function to the pool at that moment is not generated (reported defect of the unchanged code: "
-                 "corpus/C02/finding_sync_function_submitted_after_pool_shutdown.json)",
+                 "KNOWN FINDING D16 sync_function_submitted_after_pool_shutdown: run_receiver_task cancelled by its application while "
+                 "the callback of a sync-function message is still suspended before it hands the function to the pool - the message "
+                 "is acknowledged with the shut-down executor's RuntimeError as its result (corpus/C02/known/)",
                  "duration = timeout (timer tie, c_tie) is an environment choice in the theorems and is not generated; the "
                  "thread race of a sync body under timeout <= 0 (c_race) is exercised through scripted eager / lazy executors"],
 )
@@ -141,7 +142,7 @@ def oracle_listen(sc, obs):
                                     observed=dict(msg=i, ack_at_us=f.raw[a][0], function_entered_at_us=f.bodyin.get(i),
                                                   worker_task_cancelled_at_us=f.cancel_t),
                                     expected="ack call after the body ended / timed out",
-                                    sig=dict(sig, kind="executed")))
+                                    sig=dict(sig, kind="executed", d16=R.d16_facts(sc, f, i, f.raw[a][0]))))
             else:
                 saves, send = pos.get(("save", i), []), pos.get(("save.end", i), [])
                 ok = any(k < a for k in send) if saves else executed
@@ -239,9 +240,7 @@ def run(ctx):
     broken = L.explore(ctx, rep, "C02", cases, "main", ORACLES, nontrivial)
     # second family: whole listen() runs (own random stream)
     rl = ctx.sub_rng("gen-listen")
-    # (finding_*: a defect of the unchanged code that was reported and awaits the integrator's decision - kept as a replay, not run)
-    lcorp = [c for n, c in C.load_corpus("C02") if is_listen_case(c) and not n.startswith("finding_")]
-    rep.extra["corpus_reported_findings_not_run"] = [n for n, _ in C.load_corpus("C02") if n.startswith("finding_")]
+    lcorp = [c for _, c in C.load_corpus("C02") if is_listen_case(c)]
     if lcorp:
         explore_listen(ctx, rep, [c["case"] if "case" in c else c for c in lcorp], "corpus:listen")
     explore_listen(ctx, rep, [R.gen_scenario(rl, PROF_LISTEN if i % 4 else PROF_LISTEN_MIX) for i in range(ctx.n(260, 12000))], "listen")
@@ -253,7 +252,36 @@ def run(ctx):
         r2 = ctx.sub_rng("search")
         L.explore(ctx, rep, "C02", [L.gen_recv(r2, "c02") for _ in range(ctx.n(5000, 60000))], "search", ORACLES,
                   nontrivial)
-    return L.finish(rep, "C02")
+    d16 = known_d16(ctx, rep)
+    rep.extra["known_finding_D16_hits_this_run"] = sum(1 for f in rep.failures if R.sig_d16(f))
+    return rep.finish({L.D10_SIG: lambda f: bool(f["sig"].get("d10")), R.SIG_D16: R.sig_d16}, {R.SIG_D16: d16})
+
+
+def known_d16(ctx, rep):
+    """known finding D16 (known_findings.json, signature sync_function_submitted_after_pool_shutdown): its replays under
+    corpus/C02/known run on every check through the driver and the direct oracle (no model: run_receiver_task's life cycle).
+    True iff the finding reproduced on this tree WITH its signature; otherwise rep.extra says the entry is stale."""
+    d = os.path.join(C.VERIF, "corpus", "C02", "known")
+    files = sorted(f for f in os.listdir(d) if f.endswith(".json")) if os.path.isdir(d) else []
+    cases = []
+    for f in files:
+        rec = json.load(open(os.path.join(d, f)))
+        cases.append(rec["case"] if "case" in rec else rec)
+    hit = False
+    for f, sc, o in zip(files, cases, C.run_driver(ctx, "recv_driver", cases) if cases else []):
+        rep.case(sc, True)
+        rep.count("known-finding-replay:" + f[:-5])
+        if "_crash" in o:
+            rep.fail("driver crashed", sc, observed=o["_crash"], sig=dict(kind="crash"))
+            continue
+        for fl in oracle_listen(sc, o):
+            hit = hit or R.sig_d16(fl)
+            rep.fail(fl["what"], sc, observed=fl["observed"], expected=fl["expected"], sig=fl["sig"])
+    rep.extra["corpus_d16_sync_function_submitted_after_pool_shutdown"] = \
+        "reproduces (known finding)" if hit else "does NOT reproduce on this tree: the known_findings.json entry is stale"
+    if files and not hit:
+        print("NOTE: property=C02 known finding %s no longer reproduces from corpus/C02/known - its known_findings.json entry is stale" % R.SIG_D16)
+    return hit
 
 
 def is_listen_case(rec):
@@ -263,5 +291,12 @@ def is_listen_case(rec):
 
 def replay(ctx, path):
     if is_listen_case(json.load(open(path))):
-        return R.replay_print(ctx, path, oracle_listen, "C01_check")
+        def oracle_noting(sc, obs):
+            fl = oracle_listen(sc, obs)
+            for f in fl:
+                if R.sig_d16(f):
+                    f["what"] += "  [recorded as known finding %s in known_findings.json]" % R.SIG_D16
+            return fl
+
+        return R.replay_print(ctx, path, oracle_noting, "C01_check")
     return L.replay(ctx, path, ORACLES)
